@@ -241,7 +241,8 @@ func needsStringsSolver(text string) bool {
 	return strings.Contains(text, "str.indexof") || strings.Contains(text, "str.contains") ||
 		strings.Contains(text, "str.replace") || strings.Contains(text, "str.prefixof") ||
 		strings.Contains(text, "str.suffixof") || strings.Contains(text, "str.substr") ||
-		strings.Contains(text, "str.to_code") || strings.Contains(text, "str.at")
+		strings.Contains(text, "str.to_code") || strings.Contains(text, "str.at") ||
+		strings.Contains(text, "str.to_lower") || strings.Contains(text, "str.to_upper") || strings.Contains(text, "str.in_re")
 }
 
 func needsBVInt(text string) bool {
